@@ -4,6 +4,7 @@
 // VU-window, VU-v2, VU-post decide what they compute).
 #![allow(dead_code, unused)]
 use vstd::prelude::*;
+macro_rules! invalid_request { ($($t:tt)*) => { invalid_request_shim() }; }
 
 verus! {
 
@@ -57,9 +58,25 @@ impl OrderedQs {
 pub struct OrderedHeaders<'a> { pub o: u64, pub p: core::marker::PhantomData<&'a u8> }
 impl<'a> OrderedHeaders<'a> {
     pub uninterp spec fn uniq(&self, name: Seq<char>) -> Option<Seq<char>>;
+    /// how many headers carry the name (a value is unique exactly when there is one)
+    pub uninterp spec fn count(&self, name: Seq<char>) -> nat;
+    #[verifier::external_body]
+    pub proof fn axiom_unique_is_count_one(&self, name: Seq<char>) ensures self.uniq(name) is Some <==> self.count(name) == 1 {}
+    #[verifier::external_body]
+    pub fn get_all(&self, name: &str) -> (r: HeaderValues<'a>)
+        ensures r.left@ == self.count(name@)
+    { unimplemented!() }
     #[verifier::external_body]
     pub fn get_unique(&self, name: &str) -> (r: Option<&'a str>)
         ensures (r matches Some(v) ==> self.uniq(name@) == Some(v@)), (r is None ==> self.uniq(name@) is None)
+    { unimplemented!() }
+}
+/// the iterator OrderedHeaders::get_all returns, viewed as the number of values still to come
+pub struct HeaderValues<'a> { pub left: Ghost<nat>, pub p: core::marker::PhantomData<&'a u8> }
+impl<'a> HeaderValues<'a> {
+    #[verifier::external_body]
+    pub fn next(&mut self) -> (r: Option<&'a str>)
+        ensures (old(self).left@ == 0 ==> r is None && final(self).left@ == 0), (old(self).left@ > 0 ==> r is Some && final(self).left@ == old(self).left@ - 1)
     { unimplemented!() }
 }
 pub struct AuthorizationV2<'a> { pub o: u64, pub p: core::marker::PhantomData<&'a u8> }
@@ -110,15 +127,91 @@ pub open spec fn lift(r: S3Result<CredentialsExt>) -> S3Result<Option<Credential
     match r { Ok(c) => Ok(Some(c)), Err(e) => Err(e) }
 }
 
+/// what the first statements of the verifiers take for granted ("assume:" comments in ops/signature.rs): an `unwrap()` each
+pub open spec fn assumes_post(c: SignatureContext<'_>) -> bool { c.mime is Some }
+pub open spec fn assumes_qs(c: SignatureContext<'_>) -> bool { c.qs is Some }
+pub open spec fn assumes_authorization(c: SignatureContext<'_>) -> bool { c.hs.uniq("authorization"@) is Some }
+
+/// AuthorizationV4 (sig_v4/authorization_v4.rs; nom parser): uninterpreted; the list of signed header names can be sorted in place
+pub struct SignedHeaderNames { pub o: u64 }
+impl SignedHeaderNames { #[verifier::external_body] pub fn sort_unstable(&mut self) { unimplemented!() } }
+pub struct AuthorizationV4<'a> { pub signed_headers: SignedHeaderNames, pub o: u64, pub p: core::marker::PhantomData<&'a u8> }
+pub struct ParseAuthorizationError { pub o: u64 }
+impl<'a> AuthorizationV4<'a> {
+    #[verifier::external_body]
+    pub fn parse(input: &'a str) -> (r: Result<AuthorizationV4<'a>, ParseAuthorizationError>) { unimplemented!() }
+}
+#[verifier::external_body]
+pub fn invalid_request_shim() -> (r: S3Error) { unimplemented!() }
+pub struct MimeParam { pub o: u64 }
+
+//@@ extract extract_authorization_v4 file=crates/s3s/src/ops/signature.rs item="fn extract_authorization_v4" rewrites=attr,ret
+
 impl<'a> SignatureContext<'a> {
+    /// the first statement of v4_check_header_auth
+    pub fn head_of_v4_check_header_auth(&mut self) -> (ret: S3Result<AuthorizationV4<'a>>)
+        requires assumes_authorization(*old(self)),
+        ensures true,
+//@@ canary head_of_v4_check_header_auth
+    {
+//@@ extract v4_header_head file=crates/s3s/src/ops/signature.rs item="impl SignatureContext<'_>/fn v4_check_header_auth" from="let authorization: AuthorizationV4<'_> = {" until="let region = authorization.credential.aws_region;" rewrites="subst:AuthorizationV4<'_>=>AuthorizationV4<'a>"
+        Ok(authorization)
+    }
+    /// the first statement of v4_check_presigned_url
+    pub fn head_of_v4_check_presigned_url(&mut self) -> (ret: &'a OrderedQs)
+        requires assumes_qs(*old(self)),
+        ensures true,
+//@@ canary head_of_v4_check_presigned_url
+    {
+//@@ extract v4_presigned_head file=crates/s3s/src/ops/signature.rs item="impl SignatureContext<'_>/fn v4_check_presigned_url" from="let qs = self.qs.unwrap();" until="let presigned_url = PresignedUrlV4::parse(qs)"
+        qs
+    }
+    /// the first statement of v2_check_presigned_url
+    pub fn head_of_v2_check_presigned_url(&mut self) -> (ret: &'a OrderedQs)
+        requires assumes_qs(*old(self)),
+        ensures true,
+//@@ canary head_of_v2_check_presigned_url
+    {
+//@@ extract v2_presigned_head file=crates/s3s/src/ops/signature.rs item="impl SignatureContext<'_>/fn v2_check_presigned_url" from="let qs = self.qs.unwrap();" until="let presigned_url = PresignedUrlV2::parse(qs)"
+        qs
+    }
+    /// the statement of v4_check_post_signature that reads the media type
+    pub fn mime_of_v4_check_post_signature(&mut self) -> (ret: &Mime)
+        requires assumes_post(*old(self)),
+        ensures true,
+//@@ canary mime_of_v4_check_post_signature
+    {
+//@@ extract v4_post_mime file=crates/s3s/src/ops/signature.rs item="impl SignatureContext<'_>/fn v4_check_post_signature" from="let mime = self.mime.as_ref().unwrap();" until="let boundary = mime"
+        mime
+    }
     #[verifier::external_body]
-    pub fn v4_check_post_signature(&mut self) -> (r: S3Result<CredentialsExt>) ensures r == post_verdict(*old(self)) { unimplemented!() }
+    pub fn v4_check_post_signature(&mut self) -> (r: S3Result<CredentialsExt>)
+        requires
+            //# C04:dispatch.the_post_form_verifier_is_entered_only_with_a_media_type
+            assumes_post(*old(self)),
+            //#-
+        ensures r == post_verdict(*old(self)) { unimplemented!() }
     #[verifier::external_body]
-    pub fn v4_check_presigned_url(&mut self) -> (r: S3Result<CredentialsExt>) ensures r == v4_presigned_verdict(*old(self)) { unimplemented!() }
+    pub fn v4_check_presigned_url(&mut self) -> (r: S3Result<CredentialsExt>)
+        requires
+            //# C04:dispatch.the_v4_presigned_verifier_is_entered_only_with_a_query_string
+            assumes_qs(*old(self)),
+            //#-
+        ensures r == v4_presigned_verdict(*old(self)) { unimplemented!() }
     #[verifier::external_body]
-    pub fn v4_check_header_auth(&mut self) -> (r: S3Result<CredentialsExt>) ensures r == v4_header_verdict(*old(self)) { unimplemented!() }
+    pub fn v4_check_header_auth(&mut self) -> (r: S3Result<CredentialsExt>)
+        requires
+            //# C04:dispatch.the_v4_header_verifier_is_entered_only_with_a_single_authorization_header
+            assumes_authorization(*old(self)),
+            //#-
+        ensures r == v4_header_verdict(*old(self)) { unimplemented!() }
     #[verifier::external_body]
-    pub fn v2_check_presigned_url(&mut self) -> (r: S3Result<CredentialsExt>) ensures r == v2_presigned_verdict(*old(self)) { unimplemented!() }
+    pub fn v2_check_presigned_url(&mut self) -> (r: S3Result<CredentialsExt>)
+        requires
+            //# C04:dispatch.the_v2_presigned_verifier_is_entered_only_with_a_query_string
+            assumes_qs(*old(self)),
+            //#-
+        ensures r == v2_presigned_verdict(*old(self)) { unimplemented!() }
     #[verifier::external_body]
     pub fn v2_check_header_auth(&mut self, auth_v2: AuthorizationV2<'_>) -> (r: S3Result<CredentialsExt>) ensures r == v2_header_verdict(*old(self)) { unimplemented!() }
 
